@@ -19,6 +19,19 @@ SKIP_NODE_COLS = ("x", "y", "z")
 SKIP_EDGE_COLS = ("pre_locs", "post_locs")
 
 
+class SymDF(pd.DataFrame):
+    """DataFrame with symbolic cells: groupby (used by the repo only for index bookkeeping such as the rank of an edge
+    within its type) operates on the columns that hold no symbols"""
+
+    @property
+    def _constructor(self):
+        return SymDF
+
+    def groupby(self, by=None, *a, **k):
+        keep = [c for c in self.columns if not any(isinstance(x, Sym) for x in self[c].to_numpy()[:50])]
+        return pd.DataFrame(self[keep]).groupby(by, *a, **k)
+
+
 def symbolise(df: pd.DataFrame, skip=(), prefix=""):
     """float cells -> symbols named col[row label]; NaN stays NaN (becomes poison when lifted)"""
     df = df.copy()
@@ -30,7 +43,7 @@ def symbolise(df: pd.DataFrame, skip=(), prefix=""):
             for i, x in zip(df.index, df[col]):
                 vals.append(Sym(z3.Real(f"{prefix}{col}[{i}]")) if not (isinstance(x, float) and np.isnan(x)) and not pd.isna(x) else np.nan)
             df[col] = pd.Series(vals, index=df.index, dtype=object)
-    return df
+    return SymDF(df)
 
 
 class SymModule:
